@@ -633,6 +633,14 @@ func (m *metadataStoreIndex) handleMultiMemberInitialMember(event proto.Message)
 		return errcode.ErrCode_ErrDeserialization.Wrap(err)
 	}
 
+	// admins is keyed by a key object: compare by value so that re-indexing
+	// the same announcement does not register the same member again
+	for admin := range m.admins {
+		if admin.Equals(pk) {
+			return nil
+		}
+	}
+
 	if _, ok := m.admins[pk]; ok {
 		return errcode.ErrCode_ErrInternal
 	}
